@@ -120,8 +120,9 @@ func csvCell(s string) string {
 	return s
 }
 
-func makeT1(r *rng, n int, gDom int) string {
+func makeT1(r *rng, n int, gDom int) (string, []string, []string) {
 	var b strings.Builder
+	gs, hs := make([]string, n), make([]string, n)
 	b.WriteString("id,g,h,v,f,s\n")
 	ids := r.perm(n)
 	for i := 0; i < n; i++ {
@@ -139,9 +140,10 @@ func makeT1(r *rng, n int, gDom int) string {
 		if r.pct(8) {
 			s = ""
 		}
+		gs[i], hs[i] = g, h
 		fmt.Fprintf(&b, "%d,%s,%s,%s,%s,%s\n", ids[i]+1, g, h, v, f, csvCell(s))
 	}
-	return b.String()
+	return b.String(), gs, hs
 }
 
 func makeT2(r *rng, n int) string {
@@ -182,6 +184,9 @@ type gctx struct {
 	c     *detCase
 	t3ids []int
 	seq   int
+	gDom  int
+	gs    []string // column g of t1 as generated, in file order
+	hs    []string // column h of t1
 }
 
 func (g *gctx) pct(label string, p int) bool { return fw.Pct(g.t, label, p) }
@@ -606,7 +611,7 @@ func (g *gctx) genQuery() stmt {
 // genDML appends one data-changing statement and a probe SELECT of its target.
 func (g *gctx) genDML() {
 	g.seq++
-	switch fw.Uniform(g.t, "dmlKind", 9) {
+	switch fw.Uniform(g.t, "dmlKind", 12) {
 	case 0:
 		g.add(stmt{SQL: fmt.Sprintf("INSERT INTO t3 SELECT id + %d00000, v, s FROM t1", g.seq) + g.where("", 80) + g.optOrder([]string{"v", "s"}, 30), Kind: "insert_select"})
 		g.add(stmt{SQL: "SELECT * FROM t3", Kind: "probe", Sel: true})
@@ -665,6 +670,10 @@ func (g *gctx) genDML() {
 		}
 		g.add(stmt{SQL: "REPLACE INTO t3 (id, v, s) USING (id) VALUES " + strings.Join(rows, ", "), Kind: "replace_values", Tags: tags})
 		g.add(stmt{SQL: "SELECT * FROM t3", Kind: "probe", Sel: true, Tags: tags})
+	case 9, 10:
+		g.genReplaceDupKeyValues()
+	case 11:
+		g.genReplaceDupKeySelect()
 	default:
 		// REPLACE ... SELECT
 		var tags []string
@@ -701,8 +710,9 @@ func genCaseFor(t *rapid.T, cli bool) detCase {
 	gDom := fw.PickU(t, "gDom", []int{3, 8, 30, 90})
 	r := &rng{s: seed}
 	t3csv, t3ids := makeT3(r, c.N3)
+	t1csv, gs, hs := makeT1(r, c.N1, gDom)
 	c.Tables = []tbl{
-		{Name: "t1.csv", Rows: c.N1, CSV: makeT1(r, c.N1, gDom)},
+		{Name: "t1.csv", Rows: c.N1, CSV: t1csv},
 		{Name: "t2.csv", Rows: c.N2, CSV: makeT2(r, c.N2)},
 		{Name: "t3.csv", Rows: c.N3, CSV: t3csv},
 		{Name: "t4.csv", Rows: c.N1, CSV: makeT4(r, c.N1)},
@@ -722,7 +732,7 @@ func genCaseFor(t *rapid.T, cli bool) detCase {
 	for i := 0; i < np; i++ {
 		c.Procs = append(c.Procs, fw.PickU(t, "gomaxprocs", []int{1, 2, 3, 4, 8, 16}))
 	}
-	g := &gctx{t: t, c: &c, t3ids: t3ids}
+	g := &gctx{t: t, c: &c, t3ids: t3ids, gDom: gDom, gs: gs, hs: hs}
 	for _, d := range udfDecls {
 		g.add(stmt{SQL: d, Kind: "declare"})
 	}
@@ -979,16 +989,19 @@ func classesOf(c detCase) []string {
 		cl = append(cl, "kind:"+k)
 	}
 	cl = append(cl, fnTags(c)...)
+	cl = append(cl, prefixTags(c, "dupkey:")...)
 	return cl
 }
 
 // fnTags lists the built-in functions the sweeps of the program call ("fn:NAME").
-func fnTags(c detCase) []string {
+func fnTags(c detCase) []string { return prefixTags(c, "fn:") }
+
+func prefixTags(c detCase, prefix string) []string {
 	seen := map[string]bool{}
 	var out []string
 	for _, s := range c.Stmts {
 		for _, t := range s.Tags {
-			if strings.HasPrefix(t, "fn:") && !seen[t] {
+			if strings.HasPrefix(t, prefix) && !seen[t] {
 				seen[t] = true
 				out = append(out, t)
 			}
